@@ -390,6 +390,11 @@ func (ex *Exec) applyContract(ct *Contract, key string, sig *types.Signature, na
 		ex.havocForCall(callee, args, p)
 	}
 	ex.flushPendingHavoc()
+	if !ct.Pure {
+		// anything that is not declared pure may allocate (a "modifies nothing" callee returning a fresh
+		// object would otherwise contradict the allocation bound of its own result)
+		ex.bumpAlloc()
+	}
 	res := sig.Results()
 	var rv *Val
 	if ct.Fresh && res.Len() == 1 {
@@ -439,6 +444,12 @@ func (ex *Exec) applyContract(ct *Contract, key string, sig *types.Signature, na
 	}
 	for _, en := range ct.Ensures {
 		c.assume(Implies(And(append([]Term{ex.rch}, dom...)...), ex.evalBool(post, en)))
+	}
+	if len(ct.Ensures) > 0 && ex.parent == nil {
+		// vacuity guard: the callee's contract must not contradict what is known at the call site
+		cv := c.obligeNamed(fmt.Sprintf("cover.call.%s@%s", shortKey(key), ex.callSiteID("cover:"+key)), "cover", pos,
+			"the call returns under the callee's contract (its postconditions are consistent here)", ex.rch, tTrue)
+		cv.Cover = true
 	}
 	return rv
 }
@@ -696,7 +707,7 @@ var purePkgs = map[string]bool{
 	"errors": true, "path": true, "path/filepath": true, "net/url": true, "regexp": true, "time": true,
 	"encoding/hex": true, "encoding/base64": true, "crypto/sha256": true, "crypto/subtle": true, "net": true,
 	"slices": false, "sort": false, "bytes": true, "fmt": true, "reflect": true, "net/netip": true, "mime": true,
-	"net/textproto": true, "html": true, "cmp": true, "maps": false,
+	"net/textproto": true, "html": true, "cmp": true, "maps": false, "context": true,
 }
 
 var impureNames = map[string]bool{
